@@ -86,9 +86,14 @@ package bbolt
 
 //@ ghost var lastpage int      -- the page most recently decoded from a read buffer (pageInBuffer)
 
+// bufpage(arr, off, id): the page with the given id inside a byte buffer (A-unsafe: &b[id*pageSize])
+//@ uninterp func bufpage(arr int, off int, id common.Pgid) *common.Page
+//@ axiom [bufpage.inj] forall a int, o int, i common.Pgid, j common.Pgid :: i != j ==> bufpage(a, o, i) != bufpage(a, o, j)
+//@ axiom [metaof.inj] forall p *common.Page, q *common.Page :: p != q ==> metaof(p) != metaof(q)
+
 //@ func (*DB).pageInBuffer
 //@   trusted
-//@   ensures result != nil && lastpage == result
+//@   ensures result != nil && lastpage == result && result == bufpage(arrayof(b), offof(b), id)
 //@   ensures forall m *common.Meta :: allocated(m) ==> metaof(result) != m     -- the view into a private byte buffer aliases no existing Meta (A-unsafe)
 //@   modifies lastpage
 
@@ -135,8 +140,8 @@ package bbolt
 //@ func struct_writeAt.writeAt
 //@   trusted
 //@   returns (n, err)
-//@   ensures nwrites == old(nwrites) + 1 && unsynced == old(unsynced) + 1 && lastwriteoff == off && lastwritelen == len(b)
-//@   modifies nwrites, unsynced, lastwriteoff, lastwritelen
+//@   ensures nwrites == old(nwrites) + 1 && unsynced == old(unsynced) + 1 && lastwriteoff == off && lastwritelen == len(b) && lastwritearr == arrayof(b)
+//@   modifies nwrites, unsynced, lastwriteoff, lastwritelen, lastwritearr
 
 //@ func fdatasync
 //@   trusted
@@ -460,3 +465,44 @@ package bbolt
 //@   ensures [equal] index > 0 && old(cmp(previousKey, key)) == 0 ==> sent(ch) > old(sent(ch))
 //@   ensures [max] old(maxKeyOpen != nil && cmp(key, maxKeyOpen) >= 0) ==> sent(ch) > old(sent(ch))
 //@   ensures [clean] !(index == 0 && old(previousKey != nil && cmp(previousKey, key) > 0)) && !(index > 0 && old(cmp(previousKey, key)) >= 0) && !old(maxKeyOpen != nil && cmp(key, maxKeyOpen) >= 0) ==> sent(ch) == old(sent(ch))
+
+// ---------------------------------------------------------------- C17 / C12: open, lock, initialise, close
+
+//@ func flock
+//@   returns (err)
+//@   props C17
+//@   requires db != nil && db.file != nil
+//@   ensures [mode] nflock > old(nflock) && lastflockop == (exclusive ? 6 : 5)     -- LOCK_NB|LOCK_EX = 4|2, LOCK_NB|LOCK_SH = 4|1
+//@   ensures [acquired] err == nil ==> flockok
+//@   modifies lastflockop, flockok, nflock
+//@   loop 0 invariant nflock >= old(nflock) && (nflock > old(nflock) ==> lastflockop == (exclusive ? 6 : 5))
+
+//@ func funlock
+//@   returns (err)
+//@   props C17
+//@   ensures lastflockop == 8 && nflock == old(nflock) + 1     -- LOCK_UN
+//@   modifies lastflockop, flockok, nflock
+
+//@ func (*DB).close
+//@   returns (err)
+//@   props C17 C03
+//@   ensures [closed] !db.opened && db.file == nil
+//@   ensures [unlock] old(db.opened) && old(db.file) != nil && !db.readOnly ==> calls("funlock", db) == old(calls("funlock", db)) + 1 && lastflockop == 8
+//@   ensures [nounlock] !old(db.opened) || db.readOnly ==> calls("funlock", db) == old(calls("funlock", db))
+//@   ensures [filecount] old(db.opened) && old(db.file) != nil ==> calls("os.(*File).Close", old(db.file)) == old(calls("os.(*File).Close", db.file)) + 1
+//@   ensures [same] db.readOnly == old(db.readOnly)
+
+//@ func (*DB).init
+//@   returns (err)
+//@   props C12 C01
+//@   requires db != nil && db.pageSize >= 512 && db.pageSize <= 16777216
+//@   ensures [onewrite] nwrites == old(nwrites) + 1 && lastwriteoff == 0 && lastwritelen == 4 * db.pageSize
+//@   ensures [synced] err == nil ==> unsynced == 0
+//@   ensures [meta0] let m := metaof(bufpage(lastwritearr, 0, 0)) in m.magic == common.Magic && m.version == common.Version && m.pageSize == db.pageSize && m.freelist == 2 && m.root.root == 3 && m.root.sequence == 0 && m.pgid == 4 && m.txid == 0 && m.checksum == msum(m)
+//@   ensures [meta1] let m := metaof(bufpage(lastwritearr, 0, 1)) in m.magic == common.Magic && m.version == common.Version && m.pageSize == db.pageSize && m.freelist == 2 && m.root.root == 3 && m.root.sequence == 0 && m.pgid == 4 && m.txid == 1 && m.checksum == msum(m)
+//@   ensures [pages] bufpage(lastwritearr, 0, 0).id == 0 && bufpage(lastwritearr, 0, 0).flags == common.MetaPageFlag && bufpage(lastwritearr, 0, 1).id == 1 && bufpage(lastwritearr, 0, 1).flags == common.MetaPageFlag
+//@   ensures [freelistpage] bufpage(lastwritearr, 0, 2).id == 2 && bufpage(lastwritearr, 0, 2).flags == common.FreelistPageFlag && bufpage(lastwritearr, 0, 2).count == 0
+//@   ensures [leafpage] bufpage(lastwritearr, 0, 3).id == 3 && bufpage(lastwritearr, 0, 3).flags == common.LeafPageFlag && bufpage(lastwritearr, 0, 3).count == 0
+//@   loop 0 invariant [i] 0 <= i && i <= 2 && len(buf) == 4 * db.pageSize && offof(buf) == 0 && nwrites == old(nwrites) && unsynced == old(unsynced)
+//@   loop 0 invariant [m0] i >= 1 ==> (let m := metaof(bufpage(arrayof(buf), 0, 0)) in m.magic == common.Magic && m.version == common.Version && m.pageSize == db.pageSize && m.freelist == 2 && m.root.root == 3 && m.root.sequence == 0 && m.pgid == 4 && m.txid == 0 && m.checksum == msum(m)) && bufpage(arrayof(buf), 0, 0).id == 0 && bufpage(arrayof(buf), 0, 0).flags == common.MetaPageFlag
+//@   loop 0 invariant [m1] i >= 2 ==> (let m := metaof(bufpage(arrayof(buf), 0, 1)) in m.magic == common.Magic && m.version == common.Version && m.pageSize == db.pageSize && m.freelist == 2 && m.root.root == 3 && m.root.sequence == 0 && m.pgid == 4 && m.txid == 1 && m.checksum == msum(m)) && bufpage(arrayof(buf), 0, 1).id == 1 && bufpage(arrayof(buf), 0, 1).flags == common.MetaPageFlag
